@@ -136,4 +136,83 @@ theorem C06_wiring2 :
     Sso.Generated.skel_sso_Redeem =
       ["if{", "call:New", "return", "}", "call:Add", "call:Add", "call:Add", "call:Add", "call:Add", "call:String", "call:Encode", "call:NewBufferString", "call:newRequest", "if{", "return", "}", "call:Set", "call:Do", "if{", "return", "}", "call:ReadAll", "call:Close", "if{", "return", "}", "if{", "call:isProviderUnavailable", "if{", "return", "}", "call:String", "call:Errorf", "return", "}", "call:Unmarshal", "if{", "return", "}", "call:Split", "call:ToLower", "call:Duration", "call:ExtendDeadline", "call:ExtendDeadline", "call:ExtendDeadline", "return"] := by decide
 
+
+/-! ### histories: which flow a successful callback completes -/
+
+/-- no `/start`, and no callback that set a session -/
+def PUntouched (lower : Bytes → Bytes) (P : Policy) : Sealed → List PEv → Prop
+  | _, [] => True
+  | _, .start _ _ :: _ => False
+  | jar, .callback now i :: t => isLogin (callbackWith lower P jar now i) = false ∧ PUntouched lower P jar t
+
+theorem pjar_flow_origin (lower : Bytes → Bytes) (P : Policy) (evs : List PEv) (j0 : Sealed) (sid uri : String)
+    (h : evs.foldl (pJarStep lower P) j0 = .flow sid uri) :
+    (∃ before after, evs = before ++ .start sid uri :: after ∧ PUntouched lower P (.flow sid uri) after) ∨
+    (j0 = .flow sid uri ∧ PUntouched lower P j0 evs) := by
+  induction evs generalizing j0 with
+  | nil => right; exact ⟨by simpa using h, trivial⟩
+  | cons ev t ih =>
+    simp only [List.foldl_cons] at h
+    rcases ih _ h with ⟨b, a, ht, ha⟩ | ⟨hj, ht⟩
+    · left; exact ⟨ev :: b, a, by simp [ht], ha⟩
+    · cases ev with
+      | start s u =>
+        simp only [pJarStep] at hj ht
+        cases hj
+        left; exact ⟨[], t, by simp, ht⟩
+      | callback now i =>
+        simp only [pJarStep] at hj ht
+        by_cases hc : isLogin (callbackWith lower P j0 now i) = true
+        · simp [hc] at hj
+        · simp only [hc, Bool.false_eq_true, if_false] at hj ht
+          right
+          exact ⟨hj, by simpa using hc, ht⟩
+
+/-- **A successful callback completes the flow this browser started last.** Along every history of one browser at one upstream
+(any number of `/start`s, any callbacks with any state, code and error parameters, replays included): when a callback sets a
+session, its `state` opens to the flow record of the most recent `/start`, no callback has set a session since, and the browser
+is sent to the URI that `/start` recorded. -/
+theorem C06_callback_completes_outstanding_start (lower : Bytes → Bytes) (P : Policy) (pre : List PEv) (now : Int) (i : CbIn)
+    (s : Sess) (loc : String) (h : callbackWith lower P (pJarOf lower P pre) now i = .login s loc) :
+    ∃ sid before after, i.state = .flow sid loc ∧ pre = before ++ .start sid loc :: after ∧
+      PUntouched lower P (.flow sid loc) after := by
+  obtain ⟨_, _, r, _, _, sid, hst, hcs, _⟩ := C06_callback_sets_session_only_if lower P now _ s loc h
+  have hj : pJarOf lower P pre = .flow sid loc := by simpa using hcs
+  rcases pjar_flow_origin lower P pre .absent sid loc hj with ⟨b, a, hp, ha⟩ | ⟨h0, _⟩
+  · exact ⟨sid, b, a, by simpa using hst, hp, ha⟩
+  · cases h0
+
+/-- **One shot**: right after a callback that set a session, no callback — the same one replayed, or any other — sets a
+session until `/start` runs again. -/
+theorem C06_callback_one_shot (lower : Bytes → Bytes) (P : Policy) (pre : List PEv) (now now' : Int) (i j : CbIn)
+    (hl : isLogin (callbackWith lower P (pJarOf lower P pre) now i) = true) :
+    isLogin (callbackWith lower P (pJarOf lower P (pre ++ [.callback now i])) now' j) = false := by
+  have hjar : pJarOf lower P (pre ++ [.callback now i]) = .absent := by
+    simp only [pJarOf, List.foldl_append, List.foldl_cons, List.foldl_nil, pJarStep]
+    have : isLogin (callbackWith lower P (List.foldl (pJarStep lower P) Sealed.absent pre) now i) = true := hl
+    simp [this]
+  rw [hjar]
+  cases hres : callbackWith lower P .absent now' j with
+  | errorPage n => rfl
+  | login s loc =>
+    obtain ⟨_, _, r, _, _, sid, _, hcs, _⟩ := C06_callback_sets_session_only_if lower P now' _ s loc hres
+    simp at hcs
+
+-- non-vacuity: a start followed by the matching callback sets the session and uses the cookie up; the same callback again does not
+def exCbH : CbIn := { exCb with csrf := .absent }
+example : isLogin (callbackWith id exPol (pJarOf id exPol [.start "sid" "/deep?x=1"]) 10 exCbH) = true := by decide
+example : isLogin (callbackWith id exPol (pJarOf id exPol [.start "sid" "/deep?x=1", .callback 10 exCbH]) 11 exCbH) = false := by decide
+example : isLogin (callbackWith id exPol (pJarOf id exPol [.start "sid" "/deep?x=1", .start "sid2" "/other"]) 10 exCbH) = false := by decide
+
+/-- with no `/start` in the history no callback sets a session -/
+theorem C06_no_start_no_session (lower : Bytes → Bytes) (P : Policy) (pre : List PEv) (now : Int) (i : CbIn)
+    (hn : ∀ ev ∈ pre, match ev with | .start _ _ => False | .callback _ _ => True) :
+    isLogin (callbackWith lower P (pJarOf lower P pre) now i) = false := by
+  cases hres : callbackWith lower P (pJarOf lower P pre) now i with
+  | errorPage n => rfl
+  | login s loc =>
+    obtain ⟨sid, b, a, _, hp, _⟩ := C06_callback_completes_outstanding_start lower P pre now i s loc hres
+    have := hn (.start sid loc) (by rw [hp]; simp)
+    exact this.elim
+
 end Sso.Proxy
